@@ -460,4 +460,38 @@ Section Validator.
     | (Err x, s1) => (Err x, s1)
     end.
 
+  (* ---------------------------------------------------------- one Validator object as a state machine *)
+  Inductive call :=
+  | CValidate (d : value) (schema_name : str) (version : option vnum)
+  | CVersioned (version : option vnum) (schema_name : str)     (* get_versioned_schema *)
+  | CExpanded (schema_name : str) (version : option vnum).     (* get_expanded_schema *)
+
+  (* what the caller observes: the messages, or the returned schema object as
+     it looks when walked at return time *)
+  Inductive answer :=
+  | AMsgs (r : res (list value))
+  | ASchema (r : res json).
+
+  Definition step (s : vstate) (c : call) : answer * vstate :=
+    match c with
+    | CValidate d name ver =>
+        let '(r, s1) := validate d name ver s in (AMsgs r, s1)
+    | CVersioned ver name =>
+        match get_versioned_schema ver name s with
+        | (Ok e, s1) => (ASchema (Ok (entry_tree e)), s1)
+        | (Err x, s1) => (ASchema (Err x), s1)
+        end
+    | CExpanded name ver =>
+        match get_expanded_schema name ver s with
+        | Ok (e, s1) => (ASchema (Ok (entry_tree e)), s1)
+        | Err x => (ASchema (Err x), s)
+        end
+    end.
+
+  Fixpoint run (s : vstate) (cs : list call) : list answer :=
+    match cs with
+    | [] => []
+    | c :: cs' => let '(a, s1) := step s c in a :: run s1 cs'
+    end.
+
 End Validator.
